@@ -57,7 +57,8 @@ CONSTANTS Deviations,   \* deviation tags of the outbox that are enabled
           MaxQueue,     \* bound on queued entries
           MaxRestarts,  \* bound on worker restarts (0 = the worker never dies)
           Workers,      \* claim owners: worker loops of processes sharing the database and the outbox id
-          PreState      \* "empty" | "bucket" | "object": what exists before the first call
+          PreState,     \* "empty" | "bucket" | "object" | "upload": what exists before the first call
+          MaxUploads    \* multipart uploads a call may name (the u-th upload created)
 
 VARIABLES inner,     \* Pithos state of the inner storage
           queue,     \* Seq of entries [seq, op, b, k, blob, opt, owner], ascending seq (owner = claim owner or "")
@@ -77,9 +78,11 @@ TagVer  == "D-C21-versioning-race"
 \* ------------------------------------------------------------------ calls
 \* Every call record has the same fields; unused ones are "" / "none".
 \*   cond in {"none","inm","ifm"}; exp = blob whose (single-part) ETag an If-Match names
-NoCall == [op |-> "", b |-> "", k |-> "", blob |-> "", opt |-> "none", cond |-> "none", exp |-> "", status |-> ""]
+\*   u = number of the multipart upload the call names (the u-th upload created; 0 = unused)
+NoCall == [op |-> "", b |-> "", k |-> "", blob |-> "", opt |-> "none", cond |-> "none", exp |-> "", status |-> "", u |-> 0]
 MkCall(op, b, k, blob, opt, cond, exp, status) ==
-  [op |-> op, b |-> b, k |-> k, blob |-> blob, opt |-> opt, cond |-> cond, exp |-> exp, status |-> status]
+  [op |-> op, b |-> b, k |-> k, blob |-> blob, opt |-> opt, cond |-> cond, exp |-> exp, status |-> status, u |-> 0]
+MkCallU(op, b, k, blob, cond, exp, u) == [MkCall(op, b, k, blob, "none", cond, exp, "") EXCEPT !.u = u]
 
 \* every read of the storage.Storage interface that outboxStorage wraps, by the wait helper it uses:
 \*   waitForAllOutboxEntriesOfBucketAndKeyIncludingGlobal ("key")
@@ -87,10 +90,16 @@ KeyReads == {"GetObject", "HeadObject", "GetObjectTagging", "ListParts"}
 \*   waitForAllOutboxEntriesOfBucket ("bucket")
 WholeBucketReads == {"ListObjects", "ListObjectVersions"}
 \*   waitForGlobalOutboxEntriesOfBucket ("gbucket")
-GlobalBucketReads == {"HeadBucket", "GetVersioning", "ListMultipartUploads", "GetWebsite", "GetCORS", "GetLifecycle", "GetNotification"}
+\*   (the sub-resource deletions wait like the getters and touch nothing this model describes, so they
+\*   are treated like reads with an opaque answer)
+GlobalBucketReads == {"HeadBucket", "GetVersioning", "ListMultipartUploads", "GetWebsite", "GetCORS", "GetLifecycle", "GetNotification",
+                      "DeleteWebsite", "DeleteCORS", "DeleteLifecycle"}
 BucketReads == WholeBucketReads \cup GlobalBucketReads
 \* reads whose answer this model does not describe (only their wait and their inner call are bound)
-OpaqueReads == {"ListParts", "ListMultipartUploads", "GetWebsite", "GetCORS", "GetLifecycle", "GetNotification"}
+OpaqueReads == {"ListParts", "ListMultipartUploads", "GetWebsite", "GetCORS", "GetLifecycle", "GetNotification",
+                "DeleteWebsite", "DeleteCORS", "DeleteLifecycle"}
+\* the multipart calls and the other write-through calls on one key: all wait with scope "key"
+Uploads == 1..MaxUploads
 
 Calls ==
   {MkCall(op, b, "", "", "none", "none", "", "") : op \in {"CreateBucket", "DeleteBucket"} \cap CallOps, b \in Buckets}
@@ -103,6 +112,14 @@ Calls ==
   \cup {MkCall("DeleteObject", b, k, "", "none", "ifm", e, "") : op \in {"DeleteObjectCond"} \cap CallOps, b \in Buckets, k \in Keys, e \in Blobs}
   \cup {MkCall("AppendObject", b, k, bl, "none", "none", "", "") : op \in {"AppendObject"} \cap CallOps, b \in Buckets, k \in Keys, bl \in Blobs}
   \cup {MkCall(op, b, k, "", "none", "none", "", "") : op \in KeyReads \cap CallOps, b \in Buckets, k \in Keys}
+  \cup {MkCall("CreateUpload", b, k, "", "none", "none", "", "") : op \in {"CreateUpload"} \cap CallOps, b \in Buckets, k \in Keys}
+  \cup {MkCallU("UploadPart", b, k, bl, "none", "", u) : op \in {"UploadPart"} \cap CallOps, b \in Buckets, k \in Keys, bl \in Blobs, u \in Uploads}
+  \cup {MkCallU("CompleteUpload", b, k, "", "none", "", u) : op \in {"CompleteUpload"} \cap CallOps, b \in Buckets, k \in Keys, u \in Uploads}
+  \cup {MkCallU("CompleteUpload", b, k, "", "inm", "", u) : op \in {"CompleteUploadCond"} \cap CallOps, b \in Buckets, k \in Keys, u \in Uploads}
+  \cup {MkCallU("CompleteUpload", b, k, "", "ifm", e, u) : op \in {"CompleteUploadCond"} \cap CallOps, b \in Buckets, k \in Keys, e \in Blobs, u \in Uploads}
+  \cup {MkCallU("AbortUpload", b, k, "", "none", "", u) : op \in {"AbortUpload"} \cap CallOps, b \in Buckets, k \in Keys, u \in Uploads}
+  \cup {MkCall("PutTagging", b, k, "", o, "none", "", "") : op \in {"PutTagging"} \cap CallOps, b \in Buckets, k \in Keys, o \in {"none", "o1"}}
+  \cup {MkCall("Transition", b, k, "", "none", "none", "", "") : op \in {"Transition"} \cap CallOps, b \in Buckets, k \in Keys}
   \cup {MkCall(op, b, "", "", "none", "none", "", "") : op \in BucketReads \cap CallOps, b \in Buckets}
 
 IsRead(c)  == c.op \in KeyReads \cup BucketReads \cup {"ListBuckets"}
@@ -136,6 +153,13 @@ ApplyW(St, c, pc) ==
                                  PutObject(St, c.b, c.k, c.blob, o.ctype, MetaOfSym(o.meta), o.tags, o.class, pc, "none")
     [] c.op = "DeleteObject"  -> DeleteObject(St, c.b, c.k, -1, pc)
     [] c.op = "AppendObject"  -> AppendObject(St, c.b, c.k, c.blob, "none", "none")
+    [] c.op = "CreateUpload"  -> CreateUpload(St, c.b, c.k, None, EmptyMeta, None, None, "none")
+    [] c.op = "UploadPart"    -> UploadPart(St, c.b, c.k, c.u, 1, c.blob, "none")
+    [] c.op = "CompleteUpload" -> CompleteUpload(St, c.b, c.k, c.u, "none", pc, "none")
+    [] c.op = "AbortUpload"   -> AbortUpload(St, c.b, c.k, c.u)
+    \* opt "o1" -> PutObjectTagging(g1), opt "none" -> DeleteObjectTagging
+    [] c.op = "PutTagging"    -> PutTagging(St, c.b, c.k, -1, OptRec(c.opt).tags)
+    [] c.op = "Transition"    -> Transition(St, c.b, c.k, -1, "GLACIER", "none")
 
 \* what a read answers in state St
 ReadOn(St, c) ==
@@ -193,15 +217,20 @@ K1 == CHOOSE k \in Keys : \A x \in Keys : k = "k1" \/ x # "k1"
 Bl1 == CHOOSE x \in Blobs : \A y \in Blobs : x = "c1" \/ y # "c1"
 Fresh0 == InitState(Buckets, Keys, PDev)
 Fresh1 == CreateBucket(Fresh0, B1).s
+Fresh2 == PutObject(Fresh1, B1, K1, Bl1, None, EmptyMeta, None, None, "none", "none").s
+Bl2 == CHOOSE x \in Blobs : \A y \in Blobs : x = "c2" \/ y # "c2"
 Fresh == CASE PreState = "bucket" -> Fresh1
-           [] PreState = "object" -> PutObject(Fresh1, B1, K1, Bl1, None, EmptyMeta, None, None, "none", "none").s
+           [] PreState = "object" -> Fresh2
+           \* bucket, object and a pending multipart upload of the same key with its part 1 uploaded
+           [] PreState = "upload" -> UploadPart(CreateUpload(Fresh2, B1, K1, None, EmptyMeta, None, None, "none").s, B1, K1, 1, 1, Bl2, "none").s
            [] OTHER -> Fresh0
 RECURSIVE FoldN(_, _)
 FoldN(acc, n) == IF n = 0 THEN Fresh ELSE ApplyW(FoldN(acc, n - 1), acc[n].call, "none").s
 Fold(acc) == FoldN(acc, Len(acc))
 
 \* clock-free projection of a Pithos state
-Proj(St) == [bver |-> St.bver, keys |-> [b \in Buckets |-> [k \in Keys |-> KeyView(St, b, k)]]]
+Proj(St) == [bver |-> St.bver, keys |-> [b \in Buckets |-> [k \in Keys |-> KeyView(St, b, k)]],
+             ups |-> [b \in Buckets |-> IF Exists(St, b) THEN UploadView(St, b) ELSE <<>>]]
 
 \* ------------------------------------------------------------------- init
 WIdle == [pc |-> "idle", seq |-> 0]
@@ -292,7 +321,7 @@ InnerWrite(c, a, af) ==
   /\ accepted' = IF a.r.err = "" THEN Append(accepted, [call |-> call, seq |-> 0]) ELSE accepted
   /\ virt' = IF a.r.err = "" THEN ApplyW(virt, call, "none").s ELSE virt
   \* C07: the precondition is decided as it would be on the accepted history
-  /\ cl' = [cl EXCEPT ![c].pc = "idle", ![c].res = [err |-> a.r.err, v |-> <<[vid |-> a.r.vid, dm |-> a.r.dm]>>],
+  /\ cl' = [cl EXCEPT ![c].pc = "idle", ![c].res = [err |-> a.r.err, v |-> <<[vid |-> a.r.vid, dm |-> a.r.dm, uid |-> a.r.uid]>>],
                       ![c].condok = cl[c].condok /\ (call.cond = "none" \/ (a.r.err = "") = (af.r.err = ""))]
 Inner(c) ==
   /\ cl[c].pc = "inner"
